@@ -13,6 +13,11 @@ correspondence : (A) the kernels classical_strength_of_connection_abs/min, symme
                  definition with the same relaxation vectors) vs the Lean models distStrengthRow / distCommonRow:
                  pattern exact, values to a few ulp; the last step (scale_rows_by_largest_entry) of every other measure
                  vs scaleRow on its observed argument.
+                 (E) the whole of energy_based_strength_of_connection and of evolution_strength_of_connection (real
+                 canonical CSR; evolution: one candidate vector, k in {2,4,8}, finite epsilon) vs the Lean models
+                 energyFull / evolFull (extension E28): the measure / Atilde / strength values observed inside the call
+                 and the returned matrix, to a conditioning-scaled tolerance; the spectral-radius estimate is recorded
+                 from the real call.
 search         : (C) every public measure judged by an independent exact (Fraction) oracle of the property:
                  contract (nodal shape, pattern, [0,1], row maximum 1, diagonal kept), the classical / symmetric
                  rule entry by entry, monotonicity over a theta grid, theta = 0.
@@ -24,7 +29,7 @@ import numpy as np
 import scipy.sparse as sp
 
 import gen
-from common import enc_ints, enc_rats, enc_crats, enc_rat, frac
+from common import enc_ints, enc_rats, enc_crats, enc_rat, frac, dec_list
 
 META = {
     'rule': 'matrices: seeded CSR (n = 1..9) and BSR (1..5 nodes, block size 1..3) with small-integer x power-of-two '
@@ -35,12 +40,18 @@ META = {
             '1e-20, 1e-17, 1e-8, 1e8, 1e20) and/or a factor 2^-80..2^80 per row (all values remain normal doubles); both norms (+fro), block on/off, float64/float32/complex128; parameter grids of the evolution, '
             'energy, distance, algebraic-distance and affinity measures; non-trivial = the matrix has an off-diagonal '
             'stored non-zero; distinct = distinct (operation, input, parameters)',
-    'search_only': ['evolution (BSR input, epsilon = inf or not a power of two) and energy (BSR input, non-dyadic theta) measures: '
-                    '"pattern contained in the input, diagonal kept" is checked on the outputs of the real code only (spec oracle); '
-                    'for CSR input with finite power-of-two epsilon / dyadic theta the part of the function after the strength values is '
+    'search_only': ['energy_based_strength_of_connection on real canonical CSR input is modelled as a whole (energyFull: Jacobi approximate inverse, '
+                    'energy inner products, val > -0.01 rule, drop rule, + I, scaling; theorems energy_full_contract / energy_full_rule hold for '
+                    'every square-root function, omega, k, theta) and evolution_strength_of_connection on real canonical CSR input with one candidate '
+                    'vector (NullDim == 1, the default B), k in {2, 4, 8}, finite epsilon as well (evolFull: time stepping, incomplete_mat_mult_csr, '
+                    'the NullDim == 1 strength rule, filter, symmetrisation, scaling; evolution_full_contract); both are compared with the real '
+                    'functions stage by stage on every run (part E), the only input taken from the real call being the spectral-radius estimate. '
+                    'SEARCH ONLY remain: approximate_spectral_radius itself; evolution with NullDim > 1 (evolution_strength_helper, constrained '
+                    'minimisation), k = 1 or not a power of two, epsilon = inf, BSR or complex input; energy with BSR or complex input: there '
+                    '"pattern contained in the input, diagonal kept" is checked on the outputs of the real code (spec oracle), '
+                    'and for CSR input with finite power-of-two epsilon / dyadic theta the part of the function after the strength values is '
                     'modelled (evolution_tail_contract, energy_tail_contract) and compared with the real result on the values observed at '
-                    'the drop-tolerance filter / at the inner classical call; the computation of the strength values themselves '
-                    '(spectral radius, time stepping, constrained minimisation, energy norms) is not modelled. Their "[0,1], row maximum 1" '
+                    'the drop-tolerance filter / at the inner classical call. Their "[0,1], row maximum 1" '
                     'clause is decided for every call by scaling_contract on the observed argument of the last step. '
                     'algebraic_distance / affinity_distance: everything after the distance function is modelled (distance_common_contract), '
                     'the relaxation vectors and the distance formula are inputs of the model; distance_strength_of_connection: modelled '
@@ -50,7 +61,18 @@ META = {
                     'conversion BSR -> CSR for block=False and the BSR container handling are scipy code, not modelled (the model '
                     'starts from the converted CSR arrays)'],
     'partial': [],
-    'assumptions': ['evolution / energy tails: the values observed at amg_core.apply_distance_filter (evolution) and at the inner '
+    'assumptions': ['part E (whole energy / evolution measures): the spectral-radius estimate is recorded from the real call through a pass-through '
+                    'wrapper of pyamg.strength.approximate_spectral_radius (omega = 1.0/rho resp. c = 1.0/rho are handed to the model as exact '
+                    'dyadic numbers); intermediate stages are observed through pass-through wrappers (inner classical call, '
+                    'amg_core.incomplete_mat_mult_csr, amg_core.apply_distance_filter). The model is exact (Rat; square roots to relative 2^-80), '
+                    'the code is binary64: stage values are compared to 4e-14 * kappa (energy; kappa = sum|terms| / <v,Av> of the worst denominator, '
+                    'instances with kappa > 1e4 skipped) resp. 2e-13 * kappa_ij (evolution; kappa_ij = (1+|ratio|)(1 + rowmax/|x| + rowmax/|d|)), '
+                    'the returned matrices to the propagated tolerance (observed errors stay below 3 % of it); instances in which the exact model is '
+                    'within 1e-8 relative of a decision threshold (val > -0.01, theta * max, weak ratio 1e-4, sqrt(eps), ratio == 1, '
+                    'epsilon * min) or in which an exact zero appears on one side only are skipped and counted in near_threshold_skipped; the '
+                    'diagonal entry of the evolution strength values is not compared (it is overwritten by the filter and the unit diagonal); '
+                    'explicitly stored zeros are allowed; matrices: the _sym_matrix families, n <= 9, optional missing diagonal / global 2^k scaling',
+                    'evolution / energy tails: the values observed at amg_core.apply_distance_filter (evolution) and at the inner '
                     'classical_strength_of_connection call (energy) -- pass-through wrappers, no change of behaviour -- are real, finite, '
                     'non-negative (evolution), free of subnormals and stored in canonical CSR; for evolution the observed pattern lies '
                     'inside the pattern of A except for k = 1 (feature evolution_tail_pattern_outside_A = known finding); checked per instance',
@@ -1048,6 +1070,7 @@ def call_other(api, A, p):
     if api == 'evolution':
         B = {'none': None, 'ones': np.ones((n, 1), dtype=A.dtype), 'vec': (1.0 + (np.arange(n) % 3)).reshape(-1, 1).astype(A.dtype),
              'veczero': (np.arange(n) % 3).reshape(-1, 1).astype(A.dtype),
+             'wide': (10.0 ** ((np.arange(n) * 3) % 5 - 2)).reshape(-1, 1).astype(A.dtype),
              'two': np.column_stack([np.ones(n), np.arange(n) - (n - 1) / 2.0]).astype(A.dtype),
              'three': np.column_stack([np.ones(n), np.arange(n) % 2, (np.arange(n) % 3 == 0)]).astype(A.dtype)}[p['B']]
         return ST.evolution_strength_of_connection(A, B, epsilon=p['epsilon'], k=p['k'], proj_type=p['proj_type'],
@@ -1362,6 +1385,328 @@ def part_d_finish(ctx, items, outs):
             judge_other(ctx, A, api, p)
 
 
+# ------------------------------------------------------------------------------------------------
+# part E (extension E28): the WHOLE of energy_based_strength_of_connection and of evolution_strength_of_connection
+# (real canonical CSR input; evolution: NullDim == 1, k a power of two >= 2, finite epsilon) vs the Lean models
+# energyFull / evolFull.  Only the spectral-radius estimate is an input of the models: it is recorded from the real call
+# through a pass-through wrapper.  Stages observed inside the call (energy measure at the inner classical call; Atilde after
+# incomplete_mat_mult_csr; strength values at apply_distance_filter) are compared as well.
+# ------------------------------------------------------------------------------------------------
+
+NEG001 = Fr(-0.01)
+WK = Fr(1e-4)
+SQE = Fr(float(np.sqrt(np.finfo(float).eps)))
+
+
+def _call_spied(api, A, p):
+    """the real function with pass-through wrappers (no change of behaviour) recording the spectral-radius estimate and the
+    intermediate stages"""
+    from pyamg import strength as ST
+    rec = {'rho': [], 'inner': [], 'filt': [], 'inc': []}
+    o_rho, o_cl = ST.approximate_spectral_radius, ST.classical_strength_of_connection
+    o_f, o_i = ST.amg_core.apply_distance_filter, ST.amg_core.incomplete_mat_mult_csr
+
+    def s_rho(M, *a, **kw):
+        r = o_rho(M, *a, **kw)
+        rec['rho'].append(r)
+        return r
+
+    def s_cl(M, theta=0.1, **kw):
+        rec['inner'].append((M.copy(), theta))
+        return o_cl(M, theta=theta, **kw)
+
+    def s_f(n_, eps_, ip_, ix_, dx_):
+        rec['filt'].append((np.array(ip_), np.array(ix_), np.array(dx_)))
+        return o_f(n_, eps_, ip_, ix_, dx_)
+
+    def s_i(*a):
+        r = o_i(*a)
+        rec['inc'].append((np.array(a[6]), np.array(a[7]), np.array(a[8])))
+        return r
+    ST.approximate_spectral_radius = s_rho
+    if api == 'energy':
+        ST.classical_strength_of_connection = s_cl
+    ST.amg_core.apply_distance_filter, ST.amg_core.incomplete_mat_mult_csr = s_f, s_i
+    try:
+        S = call_other(api, A.copy(), p)
+    finally:
+        ST.approximate_spectral_radius, ST.classical_strength_of_connection = o_rho, o_cl
+        ST.amg_core.apply_distance_filter, ST.amg_core.incomplete_mat_mult_csr = o_f, o_i
+    return S, rec
+
+
+def _dec_rows(tok):
+    """'sp;sj;sx' -> {(i, j): Fraction}"""
+    a, b, c = tok.split(';')
+    ip = [int(t) for t in a.split(',')]
+    ix = [] if b == '-' else [int(t) for t in b.split(',')]
+    vx = [] if c == '-' else [Fr(t) for t in c.split(',')]
+    return {(i, ix[jj]): vx[jj] for i in range(len(ip) - 1) for jj in range(ip[i], ip[i + 1])}
+
+
+def _arr_dict(ip, ix, dx, drop_zero=False):
+    return {(i, int(ix[jj])): float(dx[jj]) for i in range(len(ip) - 1) for jj in range(ip[i], ip[i + 1])
+            if not (drop_zero and dx[jj] == 0)}
+
+
+def _bvec(kind, n):
+    """the single candidate vectors of call_other as float arrays"""
+    return {'none': np.ones(n), 'ones': np.ones(n), 'vec': 1.0 + (np.arange(n) % 3), 'veczero': (np.arange(n) % 3).astype(float),
+            'wide': 10.0 ** ((np.arange(n) * 3) % 5 - 2)}[kind]
+
+
+def full_case(rng, t):
+    api = 'energy' if t % 2 == 0 else 'evolution'
+    kind = str(rng.choice(['mmat', 'mmat', 'mmat', 'mixed', 'nonsym', 'nspat']))
+    n = int(rng.integers(1, 8 if api == 'energy' else 10))
+    M = _sym_matrix(rng, n, False, kind)
+    feats = {'full:' + api, 'full:matrix:' + kind}
+    if rng.random() < 0.12 and n > 1:
+        k = int(rng.integers(n))
+        M[k, k] = 0
+        feats.add('full:missing_diag')
+    A = gen.int32csr(sp.csr_array(M))
+    if rng.random() < 0.12 and A.nnz > n:
+        A.data[int(rng.integers(A.nnz))] = 0.0          # an explicitly stored zero
+        feats.add('full:stored_zero')
+    if rng.random() < 0.25:
+        A.data = A.data * SCALE_P2[int(rng.integers(len(SCALE_P2)))]
+        feats.add('full:global_scale')
+    p = {'npseed': int(rng.integers(2 ** 31))}
+    if api == 'energy':
+        p.update(theta=float(rng.choice([0.0, 0.1, 0.25, 0.5, 1.0])), k=int(rng.integers(0, 4)))
+    else:
+        p.update(epsilon=float(rng.choice([4.0, 4.0, 2.0, 10.0, 1.0])), k=int(rng.choice([2, 2, 2, 4, 8])),
+                 proj_type=str(rng.choice(['l2', 'D_A'])), symmetrize_measure=bool(rng.random() < 0.7), block_flag=False,
+                 B=str(rng.choice(['none', 'none', 'ones', 'vec', 'veczero', 'wide', 'wide'])))
+    return A, api, p, feats
+
+
+def part_e(ctx, count):
+    rng = ctx.np_rng
+    items = []
+    tiny = TINY['float64']
+    for t in range(count):
+        A, api, p, feats = full_case(rng, t)
+        for f in feats:
+            ctx.feat(f)
+        try:
+            S, rec = _call_spied(api, A, p)
+        except Exception:
+            judge_other(ctx, A, api, p)        # the oracle reports the exception
+            continue
+        if not sp.issparse(S) or len(rec['rho']) != 1 or not np.isfinite(rec['rho'][0]) or np.iscomplexobj(rec['rho'][0]) \
+                or not rec['rho'][0] > 0:
+            ctx.feat('full:skipped:no_spectral_radius')
+            judge_other(ctx, A, api, p)
+            continue
+        c = 1.0 / float(rec['rho'][0])
+        if api == 'energy':
+            line = (f'ext_c14_energy {enc_rat(c)} {enc_rat(NEG001)} {enc_rat(tiny)} {enc_rat(p["theta"])} {p["k"]} {hdr(A)}')
+        else:
+            n = A.shape[0]
+            b = _bvec(p['B'], n)
+            m = {2: 0, 4: 1, 8: 2}[p['k']]
+            line = (f'ext_c14_evol {enc_rat(BIG64)} {enc_rat(tiny)} {enc_rat(p["epsilon"])} {enc_rat(WK)} {enc_rat(SQE)} {enc_rat(WK)} '
+                    f'{enc_rat(c)} {m} {int(p["symmetrize_measure"])} {enc_rats(b)} {hdr(A)}')
+        items.append((line, A, api, p, S, rec))
+    return items
+
+
+def _cmp_dict(model, impl, tol, ignore_diag=False):
+    """-> (ok, worst); model {(i,j): Fraction}, impl {(i,j): float}; tol: float or function key -> float"""
+    km = {k for k in model if not (ignore_diag and k[0] == k[1])}
+    ki = {k for k in impl if not (ignore_diag and k[0] == k[1])}
+    if km != ki:
+        return False, float('inf')
+    worst = 0.0
+    for k in km:
+        m, v = float(model[k]), impl[k]
+        tl = tol(k) if callable(tol) else tol
+        if not np.isfinite(v):
+            return False, float('inf')
+        e = abs(m - v) / max(1.0, abs(m))
+        worst = max(worst, e / tl)
+    return worst <= 1.0, worst
+
+
+def _energy_finish(ctx, line, A, p, S, rec, o):
+    case = case_of(A, 'energy', **p)
+    n = A.shape[0]
+    if o == 'undefined':
+        ctx.feat('full:energy:model_rejects_zero_denominator')
+        return True
+    try:
+        t_meas, t_res, t_den, t_aden = o.split('|')
+        meas, res = _dec_rows(t_meas), _dec_rows(t_res)
+        den = [float(Fr(t)) for t in dec_list(t_den)]
+        aden = [float(Fr(t)) for t in dec_list(t_aden)]
+    except Exception:
+        ctx.corr('energy full model (malformed reply)', case, o, enc_csr(sp.csr_array(S)))
+        return False
+    # conditioning of the denominators <v, A v> (cancellation in the floating-point inner products)
+    kap = 1.0
+    for i in range(n):
+        if A.indptr[i + 1] > A.indptr[i]:
+            if den[i] <= 0:
+                continue            # NaN row in the code (sqrt of a negative number, 0/0), zero row in the model
+            kap = max(kap, aden[i] / den[i])
+    if kap > 1e4 or any(aden[i] > 0 and abs(den[i]) < 1e-4 * aden[i] for i in range(n)):
+        ctx.feat('full:energy:skipped:ill_conditioned_denominator')
+        ctx.near_skipped += 1
+        return True
+    if not rec['inner']:
+        ctx.corr('energy full model (inner classical call not observed)', case, o, '')
+        return False
+    M0 = sp.csr_array(rec['inner'][-1][0])
+    obs = _arr_dict(M0.indptr, M0.indices, np.asarray(M0.data).real)
+    tol_m = 4e-14 * kap
+    ok, worst = _cmp_dict(meas, obs, tol_m)
+    # the decision `val > -0.01`: |val| = 0.01 on one side, 0 on the other
+    if not ok and set(meas) == set(obs) and all(abs(float(meas[k]) - obs[k]) <= tol_m * max(1.0, abs(float(meas[k])))
+                                                  or (min(float(meas[k]), obs[k]) == 0 and abs(max(float(meas[k]), obs[k]) - 0.01) < 1e-9)
+                                                  for k in meas):
+        ctx.near_skipped += 1
+        ctx.feat('full:energy:near_threshold:val>-0.01')
+        return True
+    if not ok:
+        ctx.corr('energy measure (model enMeasure vs the argument of the inner classical call)', case, t_meas, enc_csr(M0))
+        return False
+    ctx.rel_err(worst * tol_m)
+    # near-threshold decisions of the drop rule  m_ij >= theta * max_offdiag
+    th = p['theta']
+    rowmax = {}
+    for i in range(n):
+        offd = [float(v) for (r, j), v in meas.items() if r == i and j != i]
+        mo = max(offd + [float(TINY['float64'])])
+        rowmax[i] = max([float(v) for (r, j), v in meas.items() if r == i] + [float(TINY['float64'])])
+        if any(v != 0 and abs(v - th * mo) <= 1e-9 * mo for v in offd) and th > 0:
+            # an exact tie with the maximum itself is decided identically by both sides only if the entry IS the maximum
+            if not (th == 1.0 and sum(1 for v in offd if abs(v - mo) <= 1e-9 * mo) == 1):
+                ctx.near_skipped += 1
+                ctx.feat('full:energy:near_threshold:theta')
+                return True
+    Sd = sp.csr_array(S)
+    impl = _arr_dict(Sd.indptr, Sd.indices, Sd.data)
+    small = min([rowmax[i] for i in range(n) if rowmax[i] > float(TINY['float64'])] or [1.0])
+    tol_r = 4 * tol_m / min(1.0, small) + 1e-14
+    if tol_r > 1e-7:
+        ctx.feat('full:energy:skipped:tiny_measure_row')
+        ctx.near_skipped += 1
+        return True
+    ok, worst = _cmp_dict(res, impl, tol_r)
+    if not ok:
+        ctx.corr('energy_based_strength_of_connection (model energyFull vs the returned matrix)', case, t_res, enc_csr(Sd))
+        return False
+    ctx.rel_err(worst * tol_r)
+    ctx.feat('full:energy:compared')
+    return True
+
+
+def _evol_finish(ctx, line, A, p, S, rec, o):
+    case = case_of(A, 'evolution', **p)
+    n = A.shape[0]
+    try:
+        t_P, t_meas, t_res = o.split('|')
+        P, meas, res = _dec_rows(t_P), _dec_rows(t_meas), _dec_rows(t_res)
+    except Exception:
+        ctx.corr('evolution full model (malformed reply)', case, o, enc_csr(sp.csr_array(S)))
+        return False
+    if len(rec['inc']) != 1 or len(rec['filt']) != 1:
+        ctx.corr('evolution full model (incomplete_mat_mult_csr / apply_distance_filter not observed exactly once)', case, o, '')
+        return False
+    ip, ix, dx = rec['inc'][0]
+    Po_all = _arr_dict(ip, ix, dx)
+    Pf = {k: float(v) for k, v in P.items()}
+    scale = {i: max([abs(v) for (r, j), v in Pf.items() if r == i] + [abs(v) for (r, j), v in Po_all.items() if r == i] + [1e-300])
+             for i in range(n)}
+    tolP = 2e-13
+    near = False
+    for k in set(Pf) | set(Po_all):
+        m, v = Pf.get(k, 0.0), Po_all.get(k, 0.0)
+        if abs(m - v) > tolP * max(1.0, scale[k[0]]):
+            ctx.corr('Atilde after incomplete_mat_mult_csr (model evAtilde)', case, t_P, enc_out(ip, ix, dx))
+            return False
+        if (m == 0) != (v == 0):
+            near = True             # an exact zero on one side only: eliminate_zeros differs
+    # conditioning / near-threshold decisions of the NullDim == 1 shortcut, from the model's Atilde
+    b = _bvec(p['B'], n)
+    b = np.where(b == 0, 1.0, b)
+    kap = {}
+    wk, sqe = float(WK), float(SQE)
+    for (i, j), x in Pf.items():
+        d = Pf.get((i, i), 0.0)
+        sc = scale[i]
+        if d == 0:
+            kap[(i, j)] = 1.0
+            continue
+        if abs(d) < 1e-5 * sc or abs(x) < 1e-5 * sc:
+            near = True
+            continue
+        z = d / b[i] * b[j]
+        ratio = z / x
+        kap[(i, j)] = (1 + abs(ratio)) * (1 + sc / abs(x) + sc / abs(d))
+        v = abs(1 - ratio)
+        if abs(abs(ratio) - wk) <= 1e-8 * wk:
+            near = True
+        if i != j and v < 1e-11:
+            near = True                       # ratio == 1 up to rounding: 0 (weak) or 1e-4 (near perfect)
+        if abs(v - sqe) <= 1e-6 * sqe:
+            near = True
+    if near:
+        ctx.near_skipped += 1
+        ctx.feat('full:evolution:near_threshold:strength')
+        return True
+    fp, fx, fd = rec['filt'][0]
+    obs = _arr_dict(fp, fx, np.asarray(fd).real)
+    ok, worst = _cmp_dict(meas, obs, lambda k: 2e-13 * kap.get(k, 1.0), ignore_diag=True)
+    if not ok:
+        ctx.corr('evolution strength values at apply_distance_filter (model evMeasure)', case, t_meas, enc_out(fp, fx, fd))
+        return False
+    # near ties of the drop-tolerance filter  v >= epsilon * min_offdiag
+    eps = p['epsilon']
+    for i in range(n):
+        offd = [float(v) for (r, j), v in meas.items() if r == i and j != i]
+        if offd and eps != 1.0:
+            thr = eps * min(offd)
+            if any(abs(v - thr) <= 1e-8 * thr for v in offd):
+                ctx.near_skipped += 1
+                ctx.feat('full:evolution:near_threshold:epsilon')
+                return True
+    kmax = max(list(kap.values()) + [1.0])
+    tol_r = 1e-12 * kmax
+    if tol_r > 1e-7:
+        ctx.feat('full:evolution:skipped:ill_conditioned')
+        ctx.near_skipped += 1
+        return True
+    Sd = sp.csr_array(S).copy()
+    Sd.sort_indices()
+    impl = _arr_dict(Sd.indptr, Sd.indices, Sd.data)
+    ok, worst = _cmp_dict(res, impl, tol_r)
+    if not ok:
+        ctx.corr('evolution_strength_of_connection (model evolFull vs the returned matrix)', case, t_res, enc_csr(Sd))
+        return False
+    ctx.rel_err(worst * tol_r)
+    ctx.feat('full:evolution:compared')
+    return True
+
+
+def part_e_finish(ctx, items, outs):
+    for (line, A, api, p, S, rec), o in zip(items, outs):
+        offd = A.nnz > A.shape[0]
+        ctx.case(key=_key(line), nontrivial=bool(offd),
+                 sample={'api': 'full:' + api, 'n': A.shape[0], **{k: v for k, v in p.items()}} if ctx.evaluations % 499 == 0 else None)
+        ok = (_energy_finish if api == 'energy' else _evol_finish)(ctx, line, A, p, S, rec, o)
+        if not ok:
+            judge_other(ctx, A, api, p)         # independent oracle of the property on the same input
+
+
+def run_part_e(ctx, count):
+    items = part_e(ctx, count)
+    outs = _lean(ctx, [it[0] for it in items])
+    part_e_finish(ctx, items, outs)
+
+
 def corr_parts(ctx, na, nb, nd=0):
     """parts A, B and D share one batch through the Lean driver"""
     ia = part_a(ctx, na)
@@ -1375,11 +1720,13 @@ def corr_parts(ctx, na, nb, nd=0):
 
 def run(ctx):
     corr_parts(ctx, ctx.scale(900, 40000), ctx.scale(130, 6500), ctx.scale(300, 13000))
+    run_part_e(ctx, ctx.scale(240, 8000))
     part_c(ctx, ctx.scale(240, 13000), ctx.scale(360, 19000))
 
 
 def search(ctx):
     part_c(ctx, 900, 600)
+    run_part_e(ctx, 600)
 
 
 def replay(ctx, data):
